@@ -18,6 +18,8 @@ import (
 	"regexp"
 	"sort"
 	"strings"
+	"sync"
+	"sync/atomic"
 	"syscall"
 	"time"
 	"unsafe"
@@ -402,8 +404,22 @@ func (s *Server) Close() {
 // Write puts the case's files into the server's directory.
 func (s *Server) Write(files map[string]string) error { return WriteFiles(s.Dir, files) }
 
+// watchdogExpiries counts the jobs of all servers that ran into their time limit.
+var watchdogExpiries atomic.Int64
+
+// OnAbandon is called once when the watchdog has expired on 40 jobs (set by vcheck: report and exit).
+var OnAbandon func()
+var abandonOnce sync.Once
+
 // roundTrip sends one job; if the process dies the death is reported with its stderr.
 func (s *Server) roundTrip(j job, timeout time.Duration) (response, string) {
+	if watchdogExpiries.Load() >= 40 {
+		// the program hangs on job after job: what has been seen is reported and the run ends here
+		if OnAbandon != nil {
+			abandonOnce.Do(OnAbandon)
+		}
+		return response{}, "not run: the watchdog has expired on 40 jobs of this run already"
+	}
 	b, _ := json.Marshal(j)
 	// the job is on disk before the process sees it
 	s.joblog.Truncate(0)
@@ -429,10 +445,19 @@ func (s *Server) roundTrip(j job, timeout time.Duration) (response, string) {
 	}()
 	var got rd
 	timedOut := false
+	// a run that hangs is reported by the caller each time; once several jobs of this harness process have hit
+	// the watchdog the verdict is settled, and the remaining jobs get a short limit so that the run ends
+	switch n := watchdogExpiries.Load(); {
+	case n >= 20:
+		timeout = min(timeout, 3*time.Second)
+	case n >= 3:
+		timeout = min(timeout, 15*time.Second)
+	}
 	select {
 	case got = <-ch:
 	case <-time.After(timeout):
 		timedOut = true
+		watchdogExpiries.Add(1)
 		s.cmd.Process.Signal(syscall.SIGQUIT)
 		select {
 		case got = <-ch:
